@@ -141,7 +141,7 @@ def slice_2d(ctx, n, m, lkind, order, sk, ek, step, other, dim):
     return ctx.done(same(ctx, r[1], ref.select(sel)), ctx.observe(r[1]))
 
 
-def slice_nd(ctx, shape, kinds, step=None, order='inc', position=False):
+def slice_nd(ctx, shape, kinds, step=None, order='inc', position=False, ellipsis=False):
     """N-d array with unequal sizes: a (label or position) slice in one dimension next to scalars / lists / full slices"""
     nd = len(shape)
     dims = ['x', 'y', 'z', 'w'][:nd]
@@ -176,6 +176,17 @@ def slice_nd(ctx, shape, kinds, step=None, order='inc', position=False):
             inc = True if n < 2 else bool(l[0] < l[1])
             sel.append(box_positions(ctx, l, start, stop, st, inc))
     tup = tuple(idx)
+    if ellipsis:
+        # NumPy's rule: one Ellipsis stands for the run of full slices it replaces (possibly an empty run)
+        fulls = [j for j, k in enumerate(kinds) if k == 'full']
+        if fulls:
+            j0 = fulls[0]
+            j1 = j0
+            while j1 + 1 < nd and kinds[j1 + 1] == 'full':
+                j1 += 1
+            tup = tup[:j0] + (Ellipsis,) + tup[j1 + 1:]
+        else:
+            tup = ((Ellipsis,) + tup) if ellipsis == 'front' else (tup + (Ellipsis,))
     r = ctx.call(lambda: (a.ix[tup] if position else a[tup]))
     if r[0] != 'ok':
         return ctx.done(False, r[1])
@@ -264,6 +275,13 @@ def templates():
                     continue
                 add('nd-%s-step%s-%s' % ('-'.join(kinds), step, 'pos' if position else 'label'), 'slice_nd', 'quick' if step in (None, 'open') or kinds[0] != 'full' else 'thorough', cost=2.5,
                     shape=[2, 3, 4], kinds=list(kinds), step=step, order='inc' if step != -1 else 'dec', position=position)
+    # Ellipsis in the key, before / after / around the slice
+    for kinds in (['full', 'full', 'slice'], ['slice', 'full', 'full'], ['scalar', 'full', 'slice'], ['full', 'slice', 'scalar'], ['full', 'scalar', 'slice'], ['slice', 'full', 'list'],
+                  ['slice', 'scalar', 'scalar']):
+        for position in (False, True):
+            for step in (None, -1):
+                add('nd-ellipsis-%s-step%s-%s' % ('-'.join(kinds), step, 'pos' if position else 'label'), 'slice_nd', cost=2.5, shape=[2, 3, 4], kinds=kinds, step=step,
+                    order='inc' if step != -1 else 'dec', position=position, ellipsis='front' if kinds[0] == 'slice' and 'full' not in kinds else True)
     add('nd-4d-full-slice-list-scalar', 'slice_nd', cost=4, shape=[2, 3, 2, 3], kinds=['full', 'slice', 'list', 'scalar'])
     add('nd-4d-scalar-list-slice-full', 'slice_nd', cost=4, shape=[3, 2, 3, 2], kinds=['scalar', 'list', 'slice', 'full'], step='open')
     # position slices
